@@ -26,8 +26,10 @@ RULE = ("validate: (attribute, parameter, value) with the value drawn from a poo
         "or a boundary value; overlap: accepted table with at least one entry; box: candidate of "
         "the Box's shape. distinct = distinct wire inputs")
 ASSUMPTIONS = [
-    "floats are dyadic rationals n/1024 with |n| < 2^23 (exact in binary64, binary32 and, where "
-    "used, binary16); integer overflow of numpy dtypes is outside the model",
+    "floats are dyadic rationals n/1024 with |n| < 2^52 (exact in binary64); float32/float16 "
+    "ndarrays only hold values exact in their dtype; sequences offered to float32 Boxes are either "
+    "exact in binary32 or far outside the bounds; integer overflow of numpy dtypes is outside the "
+    "model",
     "strings are opaque codes; numeric-looking strings ('3'), which numpy would parse, are outside "
     "the model",
     "object/str ndarrays are represented without their contents (only np.array([None,..]) is used)",
@@ -40,7 +42,8 @@ TICK = 1024
 MARKERS = ['o', 'v', '^', '<', '>', '1', '2', '3', '4', '8', 's', 'p',
            'P', '*', 'h', 'H', '+', 'x', 'X', 'D', 'd']
 # numeric-looking markers ('1','2','3','4','8') are only used where no numpy parsing happens
-STR_OF = {0: "", 1: "FULL", 2: "full", 3: "a", 4: "a0", 5: "agent", 6: "Full", 7: "FULL "}
+STR_OF = {0: "", 1: "FULL", 2: "full", 3: "a", 4: "a0", 5: "agent", 6: "Full", 7: "FULL ", 8: "a1",
+          9: "a2"}
 for _i, _m in enumerate(MARKERS):
     STR_OF[10 + _i] = _m
 CODE_OF = {v: k for k, v in STR_OF.items()}
@@ -54,8 +57,9 @@ class _Sim:
     pass
 
 
-def to_py(w):
-    """wire -> real Python value (fresh objects every call: setters mutate their argument)"""
+def to_py(w, gw=False):
+    """wire -> real Python value (fresh objects every call: setters mutate their argument);
+    gw: agent objects are GridWorldAgents instead of PrincipleAgents"""
     t = w[0]
     if t == 0:
         return None
@@ -86,14 +90,17 @@ def to_py(w):
         assert back == list(w[3]), ("value not exact in dtype", w)
         return a
     if t == 10:
-        return [to_py(x) for x in w[1]]
+        return [to_py(x, gw) for x in w[1]]
     if t == 11:
-        return tuple(to_py(x) for x in w[1])
+        return tuple(to_py(x, gw) for x in w[1])
     if t == 12:
-        return set(to_py(x) for x in w[1])
+        return set(to_py(x, gw) for x in w[1])
     if t == 13:
-        return {to_py(k): to_py(v) for k, v in w[1]}
+        return {to_py(k, gw): to_py(v, gw) for k, v in w[1]}
     if t == 14:
+        if gw:
+            from abmarl.sim.gridworld.agent import GridWorldAgent
+            return GridWorldAgent(id=STR_OF[w[1]], encoding=1)
         from abmarl.sim import PrincipleAgent
         return PrincipleAgent(id=STR_OF[w[1]])
     raise ValueError(w)
@@ -283,8 +290,32 @@ def impl_validate(inp):
             def get_done(self, agent_id, **kw): pass
             def get_all_done(self, **kw): pass
             def get_info(self, agent_id, **kw): pass
-        return both(lambda: Sim(agents=v()),
-                    lambda: setattr(Sim(agents={"a": PrincipleAgent(id="a")}), "agents", v()))
+        from abmarl.sim.gridworld.base import GridWorldSimulation
+
+        class GSim(GridWorldSimulation):
+            def reset(self, **kw): pass
+            def step(self, action, **kw): pass
+            def render(self, **kw): pass
+            def get_obs(self, agent_id, **kw): pass
+            def get_reward(self, agent_id, **kw): pass
+            def get_done(self, agent_id, **kw): pass
+            def get_all_done(self, **kw): pass
+            def get_info(self, agent_id, **kw): pass
+        cs = [run_code(lambda: Sim(agents=v())),
+              run_code(lambda: setattr(Sim(agents={"a": PrincipleAgent(id="a")}), "agents", v())),
+              run_code(lambda: GSim(agents=v(), grid=Grid(2, 2))),
+              run_code(lambda: setattr(GSim(agents={"a": PrincipleAgent(id="a")}, grid=Grid(2, 2)),
+                                       "agents", v()))]
+        return [cs[0]] if len(set(cs)) == 1 else [-2] + cs
+    if code == 30:
+        from abmarl.sim.gridworld.state import PositionState
+        from abmarl.sim.gridworld.done import ActiveDone
+        gv = lambda: to_py(w, gw=True)  # noqa: E731
+        ok = {"a": GridWorldAgent(id="a", encoding=1)}
+        cs = [run_code(lambda: PositionState(agents=gv(), grid=Grid(2, 2))),
+              run_code(lambda: setattr(PositionState(agents=dict(ok), grid=Grid(2, 2)), "agents", gv())),
+              run_code(lambda: ActiveDone(agents=gv(), grid=Grid(2, 2)))]
+        return [cs[0]] if len(set(cs)) == 1 else [-2] + cs
     if code == 22:
         return [run_code(lambda: Grid(v(), 2))]
     if code == 23:
@@ -412,6 +443,11 @@ def mapping_pool(rng, encs, n):
     return out
 
 
+def _num(n):
+    """Python int when n/1024 is integral, else Python float"""
+    return wI(n // TICK) if n % TICK == 0 else wF(n)
+
+
 def _hashkey(w):
     """Python dict/set identity of a hashable wire value (True == 1 == 1.0)"""
     t = w[0]
@@ -430,6 +466,8 @@ BOX_PARAMS = [
     [1, [[1, 64], [2], [0, -3072], [5120, 2048]]],
     [1, [[3, 32], [2], [-1024, -1024], [1024, 1024]]],
     [1, [[3, 64], [1], [512], [2560]]],
+    [1, [[1, 64], [2], [0, 0], [10 ** 6 * 1024, 10 ** 6 * 1024]]],
+    [1, [[1, 32], [1], [-10 ** 9 * 1024], [-10 ** 5 * 1024]]],
 ]
 
 
@@ -453,8 +491,31 @@ def gen_validate(tier, rng):
           wSet([wS("a")]), wD([[wS("a"), wL([wAg("a")])]]), wD([[wB(True), wAg("a")]]),
           wD([[wS("a"), wAg("a")], [wS("a0"), wAg("a0")], [wS("agent"), wAg("agent")]]),
           wD([[wS("a"), wAg("a")], [wS("a0"), wAg("a0")], [wS("agent"), wAg("a0")]])]
+    # keys that are a PERMUTATION of the ids: swap of two, swap beside a fixed point, 3-cycles
+    ag += [wD([[wS("a0"), wAg("a1")], [wS("a1"), wAg("a0")]]),
+           wD([[wS("a0"), wAg("a0")], [wS("a1"), wAg("a2")], [wS("a2"), wAg("a1")]]),
+           wD([[wS("a0"), wAg("a1")], [wS("a1"), wAg("a2")], [wS("a2"), wAg("a0")]]),
+           wD([[wS("a0"), wAg("a2")], [wS("a1"), wAg("a0")], [wS("a2"), wAg("a1")]]),
+           wD([[wS("a0"), wAg("a0")], [wS("a1"), wAg("a1")], [wS("a2"), wAg("a2")]])]
+    # exhaustive: every ordered choice of up to 3 distinct keys x every assignment of ids
+    names = ["a0", "a1", "a2"]
+    for n in (1, 2, 3):
+        for keys in itertools.permutations(names, n):
+            for ids in itertools.product(names + ["a"], repeat=n):
+                ag.append(wD([[wS(k), wAg(i)] for k, i in zip(keys, ids)]))
+    # four agents: random maps, half of them permutations of the ids
+    n4 = ["a0", "a1", "a2", "a"]
+    for _ in range(60 if quick else 600):
+        ids = n4[:]
+        rng.shuffle(ids)
+        if rng.random() < 0.5:
+            ids[rng.randrange(4)] = rng.choice(n4)
+        ag.append(wD([[wS(k), wAg(i)] for k, i in zip(n4, ids)]))
     for w in ag:
         yield [21, [], w]
+        yield [30, [], w]
+    for w in pool:
+        yield [30, [], w]
     # mappings
     for encs in ([1, 2, 3], [1, 3, 5], [2], [1, 2, 3, 4]):
         for code in (24, 25, 26, 27):
@@ -490,9 +551,24 @@ def gen_validate(tier, rng):
             wA(3, 64, [2], [512, -512]), wA(1, 64, [1], [3072]), wA(1, 64, [1], [6144]),
             wA(1, 64, [], [2048]), wA(1, 64, [], [3072]), wA(2, 64, [], [1024]), wA(1, 8, [], [2048]),
             wD([[wS("a"), wI(1)]])]
+    K = TICK
+    big = []
+    for a, b in ((250000 * K, 3 * K), (250000 * K + 512, 3 * K), (999999 * K + 512, 10 ** 6 * K),
+                 (10 ** 6 * K, 10 ** 6 * K), (10 ** 6 * K + 256, 0), (500000 * K, 500000 * K + 1),
+                 (10 ** 6 * K + K, 5 * K), (2 * K + 512, 3 * K), (70000 * K - 512, 70000 * K)):
+        for x, y in ((a, b), (b, a)):
+            big += [wL([_num(x), _num(y)]), wT([_num(x), _num(y)]), wL([wNF(x), _num(y)])]
+            if x % K == 0 and y % K == 0:
+                big.append(wA(1, 64, [2], [x, y]))
+            big.append(wA(3, 64, [2], [x, y]))
+    for x in (-10 ** 9 * K, -10 ** 9 * K + 512, -10 ** 9 * K - 512, -10 ** 5 * K, -10 ** 5 * K - 512,
+              -10 ** 5 * K + 512, -5 * 10 ** 8 * K + 256, -5 * 10 ** 8 * K, -3 * 10 ** 6 * K - 1):
+        big += [wL([_num(x)]), wT([_num(x)]), wL([wNF(x)]), _num(x), wA(3, 64, [1], [x])]
+        if x % K == 0:
+            big += [wA(1, 64, [1], [x]), wA(1, 32, [1], [x]), wL([wNI(x // K)])]
     for param in BOX_PARAMS:
         for code in (28, 29):
-            for w in cands:
+            for w in cands + big:
                 yield [code, param, w]
 
 
@@ -507,12 +583,22 @@ ATTR_NAMES = {1: "id", 2: "seed", 3: "active", 4: "encoding", 5: "initial_positi
               15: "attack_accuracy", 16: "simultaneous_attacks", 17: "initial_ammo", 18: "ammo",
               19: "orientation", 20: "initial_orientation", 21: "agents", 22: "grid_rows",
               23: "grid_cols", 24: "attack_mapping", 25: "target_mapping", 26: "barrier_encodings",
-              27: "free_encodings", 28: "null_action", 29: "null_observation"}
+              27: "free_encodings", 28: "null_action", 29: "null_observation",
+              30: "component_agents"}
 OUT_NAMES = {"(0)": "accepted", "(1)": "AssertionError", "(6)": "ValueError", "(7)": "TypeError"}
 
 
+def _permuted_agents(w):
+    """an agents dict whose key set equals the id set although some key is not its agent's id"""
+    if w[0] != 13 or not all(k[0] == 5 and a[0] == 14 for k, a in w[1]):
+        return False
+    return (sorted(k[1] for k, _ in w[1]) == sorted(a[1] for _, a in w[1])
+            and any(k[1] != a[1] for k, a in w[1]))
+
+
 def classify_validate(inp, out):
-    return ATTR_NAMES[inp[0]] + "/" + OUT_NAMES.get(out, "other:" + out)
+    extra = "/keys-permute-ids" if inp[0] in (21, 30) and _permuted_agents(inp[2]) else ""
+    return ATTR_NAMES[inp[0]] + extra + "/" + OUT_NAMES.get(out, "other:" + out)
 
 
 # ============================================================ overlap =======================
@@ -692,6 +778,60 @@ def _boxes():
     return out
 
 
+def _big_boxes():
+    """integer Boxes with large bounds (10^5 .. 10^9, also negative), and float64 ones"""
+    K = 1024
+    out = []
+    for dt in ([1, 64], [1, 32]):
+        out += [[dt, [1], [0], [10 ** 5 * K]], [dt, [2], [0, 0], [10 ** 6 * K, 10 ** 6 * K]],
+                [dt, [2], [-50 * K, 0], [50 * K, 70000 * K]],
+                [dt, [3], [-3 * 10 ** 6 * K] * 3, [3 * 10 ** 6 * K] * 3],
+                [dt, [1], [-10 ** 9 * K], [-10 ** 5 * K]],
+                [dt, [2], [10 ** 5 * K, -10 ** 9 * K], [10 ** 9 * K, 10 ** 9 * K]]]
+    out += [[[1, 64], [1], [-10 ** 12 * K], [10 ** 12 * K]],
+            [[3, 64], [2], [0, -10 ** 6 * K], [10 ** 6 * K + 512, 10 ** 6 * K]],
+            [[3, 64], [1], [-10 ** 9 * K - 256], [-10 ** 5 * K]]]
+    return out
+
+
+def gen_box_big(tier, rng):
+    """large magnitudes: every component on / one step inside / one step outside its bounds and
+    in the middle, with fractions 0, +-1/2, +-1/4, +-1/1024, as list, tuple, numpy scalars inside
+    a list, Python scalar, float64 / int64 / int32 ndarray"""
+    quick = tier != "thorough"
+    K = TICK
+    for wb in _big_boxes():
+        (kind, bits), shape, lo, hi = wb
+        size = len(lo)
+        for i in range(size):
+            mid = (lo[i] + hi[i]) // 2 // K * K
+            bases = sorted({lo[i], lo[i] + K, mid, hi[i] - K, hi[i], lo[i] - K, hi[i] + K,
+                            lo[i] // 2 // K * K, hi[i] // 2 // K * K})
+            for b in bases:
+                for fr in (0, 512, -512, 256, -256, 1, -1):
+                    n = b + fr
+                    others = [rng.choice([lo[j], hi[j], (lo[j] + hi[j]) // 2 // K * K,
+                                          rng.randrange(lo[j] // K, hi[j] // K + 1) * K])
+                              for j in range(size)]
+                    vals = list(others)
+                    vals[i] = n
+                    lst = [_num(v) for v in vals]
+                    yield [wb, wL(lst)]
+                    yield [wb, wT(lst)]
+                    if size == 1:
+                        yield [wb, _num(n)]
+                        yield [wb, wNF(n)]
+                    if fr in (0, 512, 1) or not quick:
+                        yield [wb, wL([wNF(v) if j == i else _num(v) for j, v in enumerate(vals)])]
+                        yield [wb, wL([wF(v) for v in vals])]
+                        yield [wb, wA(3, 64, shape, vals)]
+                        if all(v % K == 0 for v in vals):
+                            yield [wb, wA(1, 64, shape, vals)]
+                            if all(abs(v // K) < 2 ** 31 for v in vals):
+                                yield [wb, wA(1, 32, shape, vals)]
+                            yield [wb, wL([wNI(v // K) for v in vals])]
+
+
 def _near(lo, hi, integral_only=False):
     """values on, next to and outside [lo, hi] (ticks)"""
     K = 1024
@@ -734,16 +874,22 @@ def _fits(kind, bits, n):
         if n % TICK:
             return False
         z = n // TICK
-        return (0 <= z < 2 ** min(bits, 20)) if kind == 2 else (abs(z) < 2 ** min(bits - 1, 20))
+        return (0 <= z < 2 ** min(bits, 40)) if kind == 2 else (abs(z) < 2 ** min(bits - 1, 40))
     if bits == 16:
         return n % 8 == 0 and abs(n) < 16 * TICK
-    return True
+    if bits == 32:
+        return abs(n) < 2 ** 24
+    return abs(n) < 2 ** 52
 
 
 def gen_box(tier, rng):
     quick = tier != "thorough"
     reps = 1 if quick else 6
-    # the two replays of finding F7 first: Box(0, 5, (1,), int).contains([5.5]) / ([-0.5])
+    # large magnitudes first (a tolerance instead of exact comparison shows only there)
+    yield [[[1, 64], [2], [0, 0], [10 ** 6 * TICK, 10 ** 6 * TICK]],
+           wL([wF(500000 * TICK + 512), wI(500000)])]
+    yield from gen_box_big(tier, rng)
+    # the two replays of finding F7: Box(0, 5, (1,), int).contains([5.5]) / ([-0.5])
     b05 = [[1, 64], [1], [0], [5 * TICK]]
     for w in (wL([wF(5632)]), wL([wF(-512)]), wA(3, 64, [1], [5632]), wF(5632), wL([wF(2560)]),
               wT([wF(5632)]), wL([wF(5120)]), wL([wI(5)]), wL([wI(6)])):
